@@ -23,6 +23,43 @@ CHECKS = {
         note=TRUSTED + "Exhaustive only up to n=5/6; larger inputs are sampled."),
 }
 
+CHECKS.update({
+    "C01": dict(
+        text=("TLC checks the implementation-shaped machine of the rewiring loops (spec/RewireImpl.tla: edge "
+              "list in np.where order, re-pick loops, 50% flip, rewiring/lattice/mask conditions, matrix and "
+              "edge-list writes, attempts counter) for every variant on all graphs with N=4 (5 thorough): "
+              "degree, weight-bag, diagonal, symmetry, out-strength, edge-list/matrix synchronisation, "
+              "zero-eff invariants and refinement of the abstract swap, over every sequence of picks and "
+              "flips; a permutation lemma covers the latticisers' re-indexing. Conformance both ways: "
+              "TLC -simulate behaviours (draw scripts) are forced onto the real routines through a scripted "
+              "RandomState and must reproduce the model's result; seeded real runs emit one hook event per "
+              "attempt and TLC (spec/Trace_Rewire.tla) evaluates the property clauses on the logged matrix "
+              "and edge list after every accepted swap and on the returned values."),
+        design="5 C01",
+        technique="TLA+ L2 machine model-checked by TLC; spec->code scripted replay and code->spec hook-trace validation by TLC",
+        note=TRUSTED + "randomizer_bin_und is not covered by this check yet (see DESIGN). Weights are small integers."),
+    "C11": dict(
+        text=("TLC proves the two connectivity probes (frontier expansion with early exits, transcribed in "
+              "spec/Rewire.tla) sound for every connected graph on 5 (6 thorough) nodes / strongly connected "
+              "digraph on 4 nodes and every candidate swap, and checks ConnInv, the lattice-cost action "
+              "property and the mask invariant along all behaviours of the constrained variants of the L2 "
+              "machine. The same hooks/traces as C01 bind it to the code: connectivity is evaluated by TLC "
+              "on the logged matrix after every accepted swap, lattice cost step by step and overall, mask "
+              "cells, and BCTParamError for disconnected/asymmetric input."),
+        design="5 C11",
+        technique="TLA+ probe-soundness model + L2 machine checked by TLC; hook-trace validation and scripted replay",
+        note=TRUSTED + "Directed probe soundness is exhaustive only for N=4; undirected latticisers are given symmetric D."),
+    "C09": dict(
+        text=("L0 triangle/triple enumeration definitions (spec/Clustering.tla) and the code's matrix-algebra "
+              "pipelines as an L2 machine (ClusteringImpl) are proved equal by TLC on all small graphs "
+              "(binary N<=5/6 undirected, N<=4 directed, cube-rational weights, signed); every real call of "
+              "the eleven routines on all those graphs and on random graphs up to 10 nodes is validated by "
+              "TLC against the exact rational definition (10^-6 fixed point, tolerance 2)."),
+        design="5 C09",
+        technique="TLA+ definitional oracle + statement-level L2 machine checked by TLC; TLC validation of recorded real calls",
+        note=TRUSTED + "Weighted inputs restricted to cubes of small rationals so that cube roots are rational."),
+})
+
 REASON_TODO = "check not built yet in this round (planned, see DESIGN.md section 9); nothing is claimed"
 
 
